@@ -302,8 +302,18 @@ class _Model:
                 zz = res.get(n.id)
                 if zz is None:
                     continue
-                l = lin(n.ast.value) if n.ast.value is not None else None
-                if l is None or not zz.entails(T(l[0]), f"{me}.lineMax", -l[1]):
+                def le_cap(e: ast.AST | None) -> bool:
+                    if e is None:
+                        return False
+                    if isinstance(e, ast.Call) and isinstance(e.func, ast.Name) and e.func.id == "max" and e.args and not e.keywords:
+                        return all(le_cap(a_) for a_ in e.args)
+                    if isinstance(e, ast.Call) and isinstance(e.func, ast.Name) and e.func.id == "min" and e.args and not e.keywords:
+                        return any(le_cap(a_) for a_ in e.args)
+                    if isinstance(e, ast.IfExp):
+                        return le_cap(e.body) and le_cap(e.orelse)
+                    l = lin(e)
+                    return l is not None and zz.entails(T(l[0]), f"{me}.lineMax", -l[1])
+                if not le_cap(n.ast.value):
                     ok = False
         self._summ[g] = ok
         return ok
